@@ -210,6 +210,101 @@ func c19Exec(c *fw.Ctx, cs c19Case) {
 	}
 }
 
+// c19Revalidate calls ValidateCalendarObject twice on ONE calendar value that
+// is edited in place between the calls; both verdicts are compared with the
+// model of the calendar at the time of the call.
+func c19Revalidate(c *fw.Ctx, idx *int) {
+	type edit struct {
+		name string
+		do   func(cal *ical.Calendar, cs *c19Case)
+	}
+	setUID := func(i int, u string) edit {
+		return edit{fmt.Sprintf("uid[%d]=%q", i, u), func(cal *ical.Calendar, cs *c19Case) {
+			if i < len(cal.Children) {
+				if u == "" {
+					cal.Children[i].Props.Del(ical.PropUID)
+				} else {
+					cal.Children[i].Props.SetText(ical.PropUID, u)
+				}
+				cs.Comps[i].UID = u
+			}
+		}}
+	}
+	setType := func(i int, t string) edit {
+		return edit{fmt.Sprintf("type[%d]=%s", i, t), func(cal *ical.Calendar, cs *c19Case) {
+			if i < len(cal.Children) {
+				cal.Children[i].Name = t
+				cs.Comps[i].Type = t
+			}
+		}}
+	}
+	method := edit{"add METHOD", func(cal *ical.Calendar, cs *c19Case) {
+		cal.Props.SetText(ical.PropMethod, "PUBLISH")
+		cs.Method, cs.MethodVal = true, "PUBLISH"
+	}}
+	edits := []edit{setUID(0, "u2"), setUID(1, "u2"), setUID(1, ""), setUID(0, ""), setType(0, "VTODO"), setType(1, "VTODO"), setType(1, "VTIMEZONE"), setType(0, "VEVENT"), method}
+	bases := [][]c19Comp{
+		{{Type: "VEVENT", UID: "u1"}},
+		{{Type: "VEVENT", UID: "u1"}, {Type: "VEVENT", UID: "u1"}},
+		{{Type: "VTIMEZONE"}, {Type: "VEVENT", UID: "u1"}},
+		{{Type: "VEVENT", UID: "u1"}, {Type: "VEVENT"}},
+		{{Type: "VEVENT", UID: "u1"}, {Type: "VTODO", UID: "u1"}},
+		{{Type: "VTODO", UID: "u2"}, {Type: "VTODO", UID: "u1"}},
+		{{Type: "VEVENT"}, {Type: "VEVENT"}},
+	}
+	for _, b := range bases {
+		for _, e1 := range edits {
+			for _, e2 := range append([]edit{{"none", func(*ical.Calendar, *c19Case) {}}}, edits...) {
+				*idx++
+				if !c.Mine(*idx) {
+					continue
+				}
+				cs := c19Case{Comps: append([]c19Comp(nil), b...)}
+				cal, err := c19Build(cs)
+				if err != nil {
+					continue
+				}
+				steps := []string{"initial"}
+				check := func() {
+					var typ, uid string
+					var verr error
+					panicked, pv, stack := fw.Guard(func() { typ, uid, verr = caldav.ValidateCalendarObject(cal) })
+					c.Eval(1)
+					wit := map[string]interface{}{"base": b, "steps": steps, "now": cs, "type": typ, "uid": uid, "err": fw.ErrString(verr)}
+					if panicked {
+						c.Report("revalidate|panic|"+fw.PanicSite(stack), fmt.Sprintf("ValidateCalendarObject panicked: %v", pv), wit)
+						return
+					}
+					accept, mtyp, muid, open := c19Model(cs)
+					got := verr == nil
+					switch {
+					case !got && (typ != "" || uid != ""):
+						c.Report("revalidate|reject-with-nonempty-results", "rejected but returned non-empty results", wit)
+					case open:
+					case accept != got:
+						c.Report(fmt.Sprintf("revalidate|verdict-is-not-that-of-the-calendar-as-it-is-now|want-accept=%v", accept),
+							fmt.Sprintf("after %v the calendar must be %s, got err=%v", steps, map[bool]string{true: "accepted", false: "rejected"}[accept], verr), wit)
+					case accept && (typ != mtyp || uid != muid):
+						c.Report("revalidate|results-are-not-those-of-the-calendar-as-it-is-now",
+							fmt.Sprintf("after %v want type=%q uid=%q, got type=%q uid=%q", steps, mtyp, muid, typ, uid), wit)
+					}
+				}
+				check()
+				e1.do(cal, &cs)
+				steps = append(steps, e1.name)
+				check()
+				if e2.name != "none" {
+					e2.do(cal, &cs)
+					steps = append(steps, e2.name)
+					check()
+				}
+				c.Distinct(fmt.Sprintf("revalidate|%d|%s|%s", len(b), e1.name, e2.name))
+				c.Observe("universe", "revalidate-after-in-place-edit", 1)
+			}
+		}
+	}
+}
+
 func c19HasBadUID(cs c19Case) bool {
 	for _, c := range cs.Comps {
 		if c.RawUID || c.Binary {
@@ -287,6 +382,40 @@ func c19Run(c *fw.Ctx) {
 		}
 	}
 	rec2(nil)
+	// Component names outside the usual five count like any other type
+	// ("all of its components other than VTIMEZONE are of one single type"):
+	// every sequence of <= 3 components over an extended alphabet.
+	wide := []string{"VEVENT", "VTODO", "VTIMEZONE", "VAVAILABILITY", "X-CUSTOM", "VPOLL", "X-OTHER"}
+	var rec3 func(prefix []c19Comp)
+	rec3 = func(prefix []c19Comp) {
+		unusual := false
+		for _, p := range prefix {
+			switch p.Type {
+			case "VAVAILABILITY", "X-CUSTOM", "VPOLL", "X-OTHER":
+				unusual = true
+			}
+		}
+		if unusual {
+			if c.Mine(idx) {
+				c19Exec(c, c19Case{Comps: append([]c19Comp(nil), prefix...)})
+				c19Exec(c, c19Case{Comps: append([]c19Comp(nil), prefix...), ViaText: true})
+				c.Observe("universe", "unusual-component-names", 2)
+			}
+			idx++
+		}
+		if len(prefix) == 3 {
+			return
+		}
+		for _, t := range wide {
+			for _, u := range uids {
+				rec3(append(prefix, c19Comp{Type: t, UID: u}))
+			}
+		}
+	}
+	rec3(nil)
+	// The verdict is a function of the calendar as it is NOW: validate, edit
+	// the same object in place (same number of components), validate again.
+	c19Revalidate(c, &idx)
 	c.Note("exhaustive_part", fmt.Sprintf("all sequences of <= %d components over %v x uid{absent,u1,u2} x METHOD{absent,present}", maxLen, c19Types))
 
 	// Random larger calendars, half of them through the go-ical text parser.
@@ -307,11 +436,13 @@ func c19Run(c *fw.Ctx) {
 		mainU := []string{"u1", "u2", "é€"}[r.Intn(3)]
 		for j := 0; j < k; j++ {
 			t, u := mainT, mainU
-			switch r.Intn(10) {
+			switch r.Intn(12) {
 			case 0:
 				t = c19Types[r.Intn(5)]
 			case 1, 2:
 				t = "VTIMEZONE"
+			case 3:
+				t = []string{"VAVAILABILITY", "X-CUSTOM", "VPOLL"}[r.Intn(3)]
 			}
 			switch r.Intn(10) {
 			case 0:
